@@ -243,6 +243,45 @@ func init() {
 				}
 			}
 		}
+		// "nothing else" after WITH: words with a meaning elsewhere in SPDX (AdditionRef-…, LicenseRef-…, keywords), and
+		// exception ids behind such prefixes, are no exception ids
+		for _, wd := range append(append([]string{}, specialWords...), "AdditionRef-"+tblExceptions[0], "LicenseRef-"+tblExceptions[0], "AdditionRef-foo", "ExceptionRef-"+tblExceptions[len(tblExceptions)-1]) {
+			isExcWord := false
+			for _, e := range tblExceptions {
+				if strings.EqualFold(e, wd) {
+					isExcWord = true
+				}
+			}
+			if !isExcWord && !strings.ContainsAny(wd, "+ ()*") && wd != "" {
+				valid("MIT WITH "+wd, false, "a word that is no exception id is accepted after WITH")
+				valid("GPL-2.0-or-later WITH "+wd+" OR ISC", false, "a word that is no exception id is accepted after WITH")
+			}
+		}
+		// … and in LONG allowed lists (strategies change with the length): an entry that repeats an earlier valid `X WITH e`
+		// entry in lower case is NOT that entry (`with` is no operator), so the list is invalid
+		for i, e := range tblExceptions {
+			if !thorough() && i%3 != int(seed%3) {
+				continue
+			}
+			good := "GPL-2.0-only WITH " + e
+			l := []string{good}
+			for j := 0; len(l) < 18; j++ {
+				l = append(l, tblActive[(i*7+j*13)%len(tblActive)])
+			}
+			bad := strings.ToLower(good)
+			for _, ll := range [][]string{append(append([]string{}, l...), bad), append([]string{bad}, l...)} {
+				res.Evaluations++
+				count("long_list_with_lowercased_with_entry")
+				if r := implSat("MIT", ll); r.err == nil && r.panicv == nil {
+					fail(failure{Stream: "oracle", What: "an allowed entry in which an exception id follows the lower-case word 'with' (no operator) is accepted in a long list", Case: &kase{Expr: "MIT", ExprHex: hx("MIT"), Allowed: ll}, Impl: r.String(), Expected: "error"})
+					break
+				}
+				if v := implVal(ll); v.panicv == nil && (v.ok || len(v.invalid) != 1 || v.invalid[0] != bad) {
+					fail(failure{Stream: "oracle", What: "ValidateLicenses does not report exactly the lower-cased 'with' entry of a long list", Case: &kase{Allowed: ll}, Impl: v.String(), Expected: "false [that entry]"})
+					break
+				}
+			}
+		}
 		// "nothing else": a string that differs from a listed id by a non-ASCII character which Unicode case folding maps to the
 		// ASCII letter (U+017F for s, U+212A for k) is in none of the three lists and must be rejected everywhere
 		for _, id := range append(append([]string{}, tblActive...), tblDeprecated...) {
